@@ -490,8 +490,28 @@ func (u *Unit) loopEnter(st *State, from, h *ssa.BasicBlock) {
 	if mods.all {
 		u.havocAll(st)
 	} else {
+		pol := u.policy()
 		for _, comp := range sortedKeys(mods.comps) {
+			sort, known := u.compSorts()[comp]
+			var before Term
+			if known {
+				before = u.heapGet(st, comp, sort)
+			}
 			u.havocComp(st, comp)
+			if known && pol.active {
+				// Loop frame. Every write in the body carries a frame obligation (fresh object or a
+				// location of the modifies clause), so locations that existed at function entry and are
+				// outside the modifies clause keep their value across iterations.
+				after := st.heap[comp]
+				r := mk("r", SInt)
+				excl := []Term{le(app("own", SInt, r), u.entry.alloc)}
+				for _, l := range pol.locs {
+					if l.Comp == comp {
+						excl = append(excl, not(l.Match(r)))
+					}
+				}
+				st.assume(mk(fmt.Sprintf("(forall ((r Int)) (! (=> %s (= (select %s r) (select %s r))) :pattern ((select %s r))))", and(excl...).S, after.S, before.S, after.S), SBool))
+			}
 		}
 	}
 	// earlier iterations may have allocated: advance the allocation bound before
